@@ -64,6 +64,22 @@ def one(run, h, batch, rng, key):
         ms2[j] = (ms[j] + rng.choice([1, Q - 1, rand_nz(rng)])) % Q
         got = h.call("sig_verify", n, key["pk_hex"], scs(ms2), sg_tok)[0] == "1"
         run.check_monitor("unblinded_signature_rejects_other_message", not got, dict(case, ms2=ms2))
+    # ... and on no tuple differing in SEVERAL coordinates either: two coordinates exchanged, and value moved from one coordinate
+    # to another with the sum preserved (a key whose exponents y_i are not independent would let these through)
+    if n >= 2 and u != 0:
+        for _ in range(2):
+            i, j = rng.sample(pick_coords(rng, n, 3, False), 2) if n > 2 else (0, 1)
+            dlt = rng.choice([1, rand_nz(rng)])
+            moved = list(ms)
+            moved[i], moved[j] = (ms[i] + dlt) % Q, (ms[j] - dlt) % Q
+            swapped = list(ms)
+            swapped[i], swapped[j] = ms[j], ms[i]
+            for nm, ms2 in (("sum_preserving_move", moved), ("two_coordinates_exchanged", swapped)):
+                if ms2 == ms:
+                    continue
+                got = h.call("sig_verify", n, key["pk_hex"], scs(ms2), sg_tok)[0] == "1"
+                run.count("other message: " + nm)
+                run.check_monitor("unblinded_signature_rejects_other_message", not got, dict(case, ms2=ms2, kind=nm, coordinates=[i, j]))
     bf_r = unsc(bf_o)
     kbf_r = (p["rbf"] - c * bf_r) % Q
     ks_r = unscs(cs)
